@@ -572,7 +572,10 @@ def readcd_sector(est, mcsb, c2ei, scsb, parts):
 # ------------------------------------------------------------------------------------------
 def sense_fixed(key, asc, ascq, deferred=False, valid=0, information=0, length=18, flags=0, cmd_info=0,
                 fru=0, sks=0):
-    buf = bytearray(max(18, length))
+    # length: number of sense bytes the target sends (>= 14 so that ASC/ASCQ are included; SCSI-2 era
+    # targets send 14, current ones 18 or more); ADDITIONAL SENSE LENGTH = length - 8
+    total = max(14, length)
+    buf = bytearray(max(18, total))
     buf[0] = (0x80 if valid else 0) | (0x71 if deferred else 0x70)
     buf[2] = ((flags & 0xF) << 4) | (key & 0xF)
     buf[3:7] = be(information, 4)
@@ -582,7 +585,8 @@ def sense_fixed(key, asc, ascq, deferred=False, valid=0, information=0, length=1
     buf[13] = ascq
     buf[14] = fru
     buf[15:18] = be(sks & 0xFFFFFF, 3)
-    return buf
+    buf[7] = total - 8
+    return buf[:total]
 
 
 def sense_descriptor(key, asc, ascq, deferred=False, descriptors=b""):
